@@ -201,11 +201,8 @@ theorem stopAlloc_bf (s : St) : (stopAlloc s).bf = s.bf ∨ (stopAlloc s).bf = n
   split
   · dsimp only
     split
+    · right; rfl
     · left; rfl
-    · dsimp only
-      split
-      · right; rfl
-      · left; rfl
   · left; rfl
 
 theorem stopAlloc_persisted (s : St) : (stopAlloc s).persisted = s.persisted ∨ (stopAlloc s).persisted = none := by
@@ -213,11 +210,8 @@ theorem stopAlloc_persisted (s : St) : (stopAlloc s).persisted = s.persisted ∨
   split
   · dsimp only
     split
+    · right; rfl
     · left; rfl
-    · dsimp only
-      split
-      · right; rfl
-      · left; rfl
   · left; rfl
 
 theorem stop_bf (s : St) (e : Bool) : (s.stop e).bf = s.bf ∨ (s.stop e).bf = none := by
@@ -268,19 +262,16 @@ theorem stopAlloc_fe (s : St) :
   split
   · dsimp only
     split
-    · exact Or.inr ⟨rfl, fun _ h => h⟩
-    · dsimp only
-      split
-      · exact Or.inl rfl
-      · next hany =>
-        refine Or.inr ⟨rfl, fun f hf => ?_⟩
-        rw [getD_map_range] at hf
-        simp only [Bool.and_eq_true, decide_eq_true_eq, Bool.or_eq_true] at hf
-        rcases hf.2 with h | h
-        · exact h
-        · simp only [Bool.not_eq_true, List.any_eq_false] at hany
-          have := hany f (by simpa using h)
-          simpa using this
+    · exact Or.inl rfl
+    · next hany =>
+      refine Or.inr ⟨rfl, fun f hf => ?_⟩
+      rw [getD_map_range] at hf
+      simp only [Bool.and_eq_true, decide_eq_true_eq, Bool.or_eq_true] at hf
+      rcases hf.2 with h | h
+      · exact h
+      · simp only [Bool.not_eq_true, List.any_eq_false] at hany
+        have := hany f (by simpa using h)
+        simpa using this
   · exact Or.inr ⟨rfl, fun _ h => h⟩
 
 theorem stop_fe (s : St) (e : Bool) :
